@@ -8,7 +8,7 @@ import os
 
 HERE = os.path.dirname(os.path.abspath(__file__))
 VERIF = os.path.dirname(HERE)
-OUT = os.path.join(VERIF, "lean", "Phil", "Generated", "Tables.lean")
+OUT = os.path.join(os.environ.get("VERIF_LEAN") or os.path.join(VERIF, "lean"), "Phil", "Generated", "Tables.lean")
 
 
 def _src(name):
@@ -77,6 +77,27 @@ def extract():
             t["defaultPrintWidth"] = ast.literal_eval(node.value)
     if "defaultPrintWidth" not in t or t["structMeta"] is None:
         raise LookupError("default_print_width / meta_comment")
+    # the match classes of the argument interpreter: integer constants returned by get_path_score, in source order
+    cl = ast.parse(_src("command_line.py"))
+    rets = []
+    for node in ast.walk(_func(cl, "get_path_score")):
+        if isinstance(node, ast.Return) and isinstance(node.value, ast.Constant) and isinstance(node.value.value, int):
+            rets.append((node.lineno, node.value.value))
+    t["pathScoreReturns"] = [v for _, v in sorted(rets)]
+    if len(t["pathScoreReturns"]) < 5:
+        raise LookupError("get_path_score returns")
+    # keyword defaults of the numeric / choice converter constructors: (name, default) as text
+    def init_defaults(cls):
+        for node in ast.walk(conv):
+            if isinstance(node, ast.ClassDef) and node.name == cls:
+                for st in node.body:
+                    if isinstance(st, ast.FunctionDef) and st.name == "__init__":
+                        names = [a.arg for a in st.args.args[1:]]
+                        return ["%s=%r" % (n, ast.literal_eval(d)) for n, d in zip(names, st.args.defaults)]
+        raise LookupError(cls + ".__init__")
+    t["numberInitDefaults"] = init_defaults("number_converters_base")
+    t["numbersInitDefaults"] = init_defaults("numbers_converters_base")
+    t["choiceInitDefaults"] = init_defaults("choice_converters")
     return t
 
 
@@ -102,11 +123,16 @@ def structComment : List Char := %s
 def structMeta : String := "%s"
 def valueSingle : List Char := %s
 def defaultPrintWidth : Int := %d
+def pathScoreReturns : List Nat := %s
+def numberInitDefaults : List String := %s
+def numbersInitDefaults : List String := %s
+def choiceInitDefaults : List String := %s
 
 end Phil.Gen
 """ % (lean_str_list(t["defAttrNames"]), lean_str_list(t["scopeAttrNames"]), lean_str_list(t["boolFalse"]),
        lean_str_list(t["boolTrue"]), chars(t["structSingle"]), chars(t["structComment"]), t["structMeta"],
-       chars(t["valueSingle"]), t["defaultPrintWidth"])
+       chars(t["valueSingle"]), t["defaultPrintWidth"], "[" + ", ".join(str(v) for v in t["pathScoreReturns"]) + "]",
+       lean_str_list(t["numberInitDefaults"]), lean_str_list(t["numbersInitDefaults"]), lean_str_list(t["choiceInitDefaults"]))
 
 
 def regenerate():
